@@ -12,6 +12,8 @@ import Mimic.Packets
 import Mimic.Stream
 import Mimic.Extracted.Stream
 import Mimic.Dispatch
+import Mimic.Variables
+import Mimic.Extracted.Variables
 import Mimic.Extracted.Session
 import Mimic.Extracted.Charset
 /-! Line-protocol driver pieces: one `handle` per domain. Unknown input is answered `bad-op`, never defaulted. -/
@@ -49,6 +51,7 @@ structure St where
   authPlugins : List Mimic.Auth.Plugin := []
   authUsers : List (String × Mimic.Auth.User) := []
   conn : Mimic.Conn.S := Mimic.Conn.init
+  vars : Mimic.Variables.Store := []
 
 def ctl (st : St) : List String → St × String
   | ["new", sid] => match sid.toNat? with
@@ -544,6 +547,103 @@ def dsp (_st : St) : List String → String
       | none => "bad-op"
   | _ => "bad-op"
 
+/-! system variables -/
+
+open Mimic.Variables in
+def parseLit (s : String) : Option Arg :=
+  if s = "T" then some (.val (.bool true)) else if s = "F" then some (.val (.bool false))
+  else if s = "N" then some (.val .none) else if s = "D" then some .dflt else if s = "X" then some .complex
+  else if s.startsWith "i" then ((s.drop 1).toString.toInt?).map (fun i => .val (.int i))
+  else if s.startsWith "s" then (unhexStr (s.drop 1).toString).map (fun x => .val (.str x))
+  else if s.startsWith "f" then match (s.drop 1).toString.splitOn ":" with
+    | [t, z, r] => match t.toInt?, unhexStr r with
+      | some t, some r => some (.val (.flt t (z == "1") r))
+      | _, _ => none
+    | _ => none
+  else none
+
+def starOpt (s : String) : Option String := if s = "*" then none else some s
+
+open Mimic.Variables in
+def parseItem (s : String) : Option Item :=
+  match s.splitOn "|" with
+  | ["V", sc, name, lit] =>
+    let scope := if sc = "S" then some Scope.session else if sc = "G" then some Scope.global else if sc = "U" then some Scope.user else none
+    match scope, parseLit lit with
+    | some sc, some a => some (.var sc name a)
+    | _, _ => none
+  | ["N", cs, coll] => some (.names (starOpt cs) (starOpt coll))
+  | ["C", cs] => some (.charset (starOpt cs))
+  | ["T", chars] =>
+    let names := (chars.splitOn "~").map (fun c => c.replace "_" " ")
+    let looked := names.map (fun n => (Mimic.Extracted.Variables.transactionCharacteristics.find? (fun p => p.1 == n)).map (fun p => p.2))
+    match optAllL looked with
+    | some l => some (.transaction l)
+    | none => some .transactionUnknown
+  | ["Z"] => some .unsupported
+  | _ => none
+
+open Mimic.Variables in
+def showV : V → String
+  | .int i => s!"i:{i}"
+  | .bool b => if b then "b:True" else "b:False"
+  | .str x => "s:" ++ hex x.toUTF8.toList
+  | .flt t _ _ => s!"f:{t}"
+  | .none => "none"
+
+open Mimic.Variables in
+def showErr : Err → String
+  | .unknown => "err:unknown" | .notDynamic => "err:notDynamic" | .badValue => "err:badValue" | .notSupported => "err:notSupported"
+
+def varSchema := Mimic.Extracted.Variables.schema
+def varCs := Mimic.Extracted.Variables.usableCharsets
+def varDc (c : String) : Option String := Mimic.Extracted.Variables.defaultCollations.lookup c
+
+open Mimic.Variables in
+def parseAssign (s : String) : Option (String × Arg) :=
+  match s.splitOn "=" with
+  | [n, l] => (parseLit l).map (fun a => (n, a))
+  | _ => none
+
+open Mimic.Variables in
+def varOps (st : St) : List String → St × String
+  | ["reset"] => ({ st with vars := [] }, "ok")
+  | ["force", name, lit] => match parseLit lit with
+      | some a => match set varSchema varCs true st.vars name a with
+        | .ok v => ({ st with vars := v }, "ok")
+        | .error e => (st, showErr e)
+      | none => (st, "bad-op")
+  | "set" :: items => match optAllL (items.map parseItem) with
+      | some its =>
+        let r := setStmt varSchema varCs varDc st.vars its
+        ({ st with vars := r.1 }, match r.2 with | none => "ok" | some e => showErr e)
+      | none => (st, "bad-op")
+  | ["get", name] => (st, match get varSchema st.vars name with | .ok v => showV v | .error e => showErr e)
+  | ["list"] => (st, ";".intercalate ((list varSchema st.vars Mimic.Extracted.Variables.sortedNames).map (fun p => p.1 ++ "=" ++ showV p.2)))
+  | ["tz"] => (st, match get varSchema st.vars "time_zone" with
+      | .ok v => (match tzOffset (pyStr v) with | some o => toString o | none => "bad")
+      | .error e => showErr e)
+  | ["hint", assigns, body] =>
+      match optAllL ((if assigns = "-" then [] else assigns.splitOn ",").map parseAssign) with
+      | some as =>
+        -- the body reports what it read through a side channel: evaluate it separately on the hinted store
+        let bodyF : Store → Option Err := fun s =>
+          if body = "fail" then some .badValue
+          else if body.startsWith "get:" then (match get varSchema s (body.drop 4).toString with | .ok _ => none | .error e => some e)
+          else none
+        let r := hinted varSchema varCs st.vars as bodyF
+        let view :=
+          if body.startsWith "get:" then
+            match saveAll varSchema st.vars as with
+            | none => "-"
+            | some _ => match setAll varSchema varCs st.vars as with
+              | (s1, none) => (match get varSchema s1 (body.drop 4).toString with | .ok v => showV v | .error e => showErr e)
+              | (_, some _) => "-"
+          else "-"
+        ({ st with vars := r.1 }, view ++ "|" ++ (match r.2 with | none => "ok" | some e => showErr e))
+      | none => (st, "bad-op")
+  | _ => (st, "bad-op")
+
 def handle (st : St) (line : String) : St × String :=
   match words line with
   | "ctl" :: rest => ctl st rest
@@ -557,6 +657,7 @@ def handle (st : St) (line : String) : St × String :=
   | "pkt" :: rest => (st, pktOps st rest)
   | "strm" :: rest => (st, strm st rest)
   | "dsp" :: rest => (st, dsp st rest)
+  | "var" :: rest => varOps st rest
   | _ => (st, "bad-op")
 
 end Mimic.Drv
